@@ -104,9 +104,26 @@ def timed_scenarios(rng, tier):
     return out
 
 
+def midtick_scenarios(rng, tier):
+    from .c07 import dev
+    out = []
+    for num, den in ([1, 1], [2, 1], [1, 2]):
+        P = 600_000_000 * num
+        for off in (30_000_000, 750_000_000, 810_000_000, 1_260_000_000):
+            scn = {"components": [dev("p", cb={"kind": "period", "p": P}, cost=60_000_000), dev("q", {"i": ["p", "o"]}, cost=60_000_000), dev("x", cost=0)],
+                   "speed": [num, den], "n_ticks": 6, "stims": [{"real": off * den // num if False else off, "comp": "x"}], "max_steps": 4000}
+            out.append(scn)
+    return out
+
+
 def run(tier, seed, drv):
     res = Result()
     rng = random.Random(seed)
+    for scn in midtick_scenarios(rng, tier):
+        run_ = run_scenario(scn, bus="sync")
+        res.case(SC.scn_key(scn), nontrivial=True)
+        res.count("mid-tick-interrupt")
+        SC.check_run(scn, run_, drv, res, monitors_on=("pacing", "interrupt_stamp", "interrupts"), corr=(), case_extra={"bus": "sync"})
     pacing_diff(rng, 400 if tier == "quick" else 5000, drv, res)
     for i, scn in enumerate(SC.corpus_scenarios() + timed_scenarios(rng, tier)):
         SC.stats_into(res, scn)
